@@ -25,7 +25,7 @@ CLAIM = dict(cat="proof", design="§3 C09",
         "derived/transient table is re-checked against the expressions in the AST; the extracted codec is compared with the real writer/reader on random typed sequences; real components are "
         "written, read and rewritten; the size sequence read by a restarted run is compared with the one the dump wrote (reader hook); and the whole binary is stopped after every k < N, restarted, and "
         "its final dumps compared byte for byte with the uninterrupted run outside the timer bytes and the re-seeded random_seed word. Whole-binary plans include a run restarted from the dump written after its LAST step (must take no step and reproduce the dump) and, when the inventory breaks, the full configuration list (turbulence forcing with driving steps due/not due, anisotropic boxes) is searched for the concrete diverging run.",
-   note="Partial: only the task-based RHD path (TaskBasedRadiationHydrodynamicsSimulation::do_simulation and the classes it dumps) is inventoried; the legacy RadiationHydrodynamicsSimulation/DensityGrid path is not. "
+   note="Quick configurations include a RescaledIC hydro mask (the dump walker follows the optional mask block through the regenerated inventory to find the re-seeded word). Partial: only the task-based RHD path (TaskBasedRadiationHydrodynamicsSimulation::do_simulation and the classes it dumps) is inventoried; the legacy RadiationHydrodynamicsSimulation/DensityGrid path is not. "
         "Documented exceptions: the four wall-clock timers and the photon random stream (restart_generator is rebuilt from the dumped random_seed, so later seeds differ). HDF5 snapshots are not compared. "
         "Equality of loop counts / optional components at dump and restart time (the oracle) is an assumption tied dynamically by the reader-hook trace. The committed table harness/c09/derived_transient.json "
         "(where each transient member is reset) is audited by hand; the extractor only re-checks the expressions of derived members. Trusted: Coq kernel, clang 14 AST + tools/restart_inventory.py, "
